@@ -58,7 +58,7 @@ func init() { childFns["C14"] = c14Child }
 func c14Child(run *evid.Run, batch, nb int, j *Journal) {
 	installHook()
 	n := envInt("VERIF_C14_N", 0)
-	for i := batch; i < n; i += nb {
+	for i := batch; i < n && !evid.IsSaturated(); i += nb {
 		c14Scenario(run, i, j)
 	}
 }
